@@ -192,3 +192,6 @@ func PeriodID(kind PeriodKind, dt Date) int {
 	}
 	return dt.Y
 }
+
+// String renders the date as YYYY-MM-DD.
+func (d Date) String() string { return FormatDate(d, true) }
